@@ -213,10 +213,27 @@ class Renderer:
         "bool_for_int": ("uint8", False, "true"),
         "huge_digits": ("uint64", False, "1" * 5000),
         "real_huge_int": ("real32", False, "1" * 400),
+        "huge_hex": ("uint8", False, "0x" + "F" * 5000),
+        "huge_binary": ("uint8", False, "1" * 20000 + "b"),
     }
     # property of class Types holding a value of that type
     TYPEPROP = {"uint8": "n", "uint64": "big", "uint16": "n", "datetime": "d",
                 "boolean": "b", "string": "s1", "char16": "c", "real32": "r"}
+
+    # -- optional parts (OptDims of the spec) ---------------------------------
+    OPTDIMS = {("instance", "opt"): (2, 2, 3), ("qualDecl", "opt"): (2, 2, 3, 2),
+               ("class", "opt"): (2, 2, 2, 3), ("class", "opt_prop"): (2, 3, 2),
+               ("class", "opt_method"): (2, 3, 2, 3)}
+
+    @classmethod
+    def optdigits(cls, p):
+        """Digits of the parameter of an `opt` production (mixed radix, first
+        dimension = least significant digit)."""
+        a, out = p["a"], []
+        for n in cls.OPTDIMS[(p["k"], p["v"])]:
+            out.append(a % n)
+            a //= n
+        return out
 
     # -- productions ---------------------------------------------------------
     def prod_tokens(self, p, tag, here):
@@ -251,6 +268,18 @@ class Renderer:
                 arr, val = "[]", '{"a", "b"}'
             elif v == "no_flavor":
                 flav = None
+            elif v == "opt":
+                isarr, dv, fl, sc = self.optdigits(p)
+                s = "%s %s : string%s%s, %s(%s)" % (
+                    kw("Qualifier"), name, "[]" if isarr else "",
+                    "" if not dv else ' = {"a", "b"}' if isarr else ' = "a"',
+                    kw("Scope"), "class, property, method" if sc
+                    else "property")
+                if fl:
+                    s += ", %s(%s)" % (kw("Flavor"), "EnableOverride" if fl == 1
+                                       else "EnableOverride, ToSubclass, "
+                                       "Translatable")
+                return toks(s + ";")
         elif d == "value":
             if v == "conflicting_flavors":
                 flav = "%s(EnableOverride, DisableOverride)" % kw("Flavor")
@@ -275,6 +304,7 @@ class Renderer:
         keymode = None
         head = '[Description("c%s")] ' % tag
         alias = ""
+        pre = ""
         sval = self.strval(v if d == "none" else "")
         ival = self.intval(v if d == "none" else "")
         body = ('[Description("p"), MaxLen(8)] string s1 = %s; '
@@ -296,6 +326,34 @@ class Renderer:
             elif v == "assoc":
                 head, sup = "[Association] ", ""
                 body = "[Key] Base REF x; [Key] Base REF y;"
+            elif v == "opt":
+                q, al, su, fl = self.optdigits(p)
+                head = head if q else ""
+                alias = " %s $c%s" % (kw("as"), tag) if al else ""
+                sup = " : Base" if su else ""
+                key = "" if su else "[Key] uint8 kk; "
+                body = ["", key or "string s1;",
+                        key + "string s1; uint8 n = 1; uint32 m1(uint8 p1);"
+                        ][fl]
+            elif v == "opt_prop":
+                q, ty, dv = self.optdigits(p)
+                decl = ('[Description("pq")] ' if q else "") + \
+                    ["uint8 p", "uint8 p[]", "Base REF p"][ty] + \
+                    ("" if not dv else [" = 5", " = {1, 2}", " = NULL"][ty])
+                if ty == 2:
+                    head, sup = "[Association] ", ""
+                    body = "[Key] Base REF x; %s;" % decl
+                    keymode = "other"
+                else:
+                    body = decl + ";"
+            elif v == "opt_method":
+                mq, np_, pq, pt = self.optdigits(p)
+                par = ('[Description("pp")] ' if pq else "") + \
+                    ["uint8 p1", "uint8 p1[]", "Base REF p1"][pt]
+                pars = ["", par, par + ', string p2, [Description("x")] '
+                        'sint16 p3[4]'][np_]
+                body = "%suint32 m1(%s);" % (
+                    '[Description("mq")] ' if mq else "", pars)
             elif v == "sub_of_prev":
                 body = "string sub%s;" % tag
                 if self.prev:
@@ -325,9 +383,21 @@ class Renderer:
             elif v == "undefined_alias":
                 head, sup = "[Association] ", ""
                 body = "[Key] Base REF x = $nope%s; [Key] Base REF y;" % tag
+            elif v == "emb_qual_nonstring":
+                pre = ("%s EmbeddedInstance : uint32, %s(property, method, "
+                       "parameter);\n" % (kw("Qualifier"), kw("Scope")))
+                body = "[EmbeddedInstance(5)] string p;"
         elif d == "dependency":
             if v == "unknown_superclass":
                 sup = " : Nope%s" % tag
+            elif v == "super_wrongfile_searchpath":
+                sup = " : SW%s" % tag
+                self.write_sp("SW%s.mof" % tag,
+                              "class SWOther%s : Base { };\n" % tag)
+            elif v == "super_redefine_cycle":
+                pre = ("%s %s : Base { string p; };\n%s D%s : %s { };\n" % (
+                    kw("class"), name, kw("class"), tag, self.anycase(name)))
+                sup, body, keymode = " : D%s" % tag, "string p;", "base"
             elif v == "unknown_qualifier":
                 head = "[NopeQ%s] " % tag
             elif v == "unknown_refclass":
@@ -376,8 +446,8 @@ class Renderer:
                        "kk" if "kk;" in body else
                        "base" if sup == " : Base" else "other")
         self.prev = (name, keymode)
-        return toks("%s%s %s%s%s { %s };" % (head, kw("class"), name, alias,
-                                             sup, body))
+        return toks("%s%s%s %s%s%s { %s };" % (pre, head, kw("class"), name,
+                                               alias, sup, body))
 
     def sibling(self, a, name):
         """Sibling element of unusual shape next to an unresolved REF /
@@ -426,6 +496,14 @@ class Renderer:
         if d == "none":
             if v == "no_alias":
                 alias = ""
+            elif v == "opt":
+                q, al, pl = self.optdigits(p)
+                pre = '[Description("i%s")] ' % tag if q else ""
+                alias = alias if al else ""
+                key = "k = %d;" % self.nextkey()
+                props = [key, key + ' s = "x"; n = 1; arr = {1, 2};',
+                         '[Description("pq")] ' + key +
+                         ' [Description("p2")] s = "x";'][pl]
             elif v == "emb_ok":
                 emb = 'instance of Base { k = 1; s = "e"; };'
                 self.embedded.append(emb)
@@ -478,6 +556,17 @@ class Renderer:
                 props = "a = $nope%s; b = $nope%s;" % (tag, tag)
             elif v == "dup_property":
                 props = "k = %d; n = 1; N = 2;" % self.nextkey()
+            elif v == "null_key":
+                props = 'k = %s; s = "x";' % self.rng.choice(
+                    ["NULL", "null"])
+            elif v == "array_key":
+                cls = "AK%s" % tag
+                pre = "%s %s { [Key] string ka[]; };\n" % (kw("class"), cls)
+                props = 'ka = {"a", "b"};'
+            elif v == "emb_nonstring_value":
+                props = "k = %d; %s;" % (self.nextkey(), self.rng.choice(
+                    ["e = 5", "e = true", "e = 1.5", "ea = {1, 2}",
+                     "e = {1}", "ea = 7"]))
             elif v.startswith("emb_"):
                 emb = {"emb_bad_syntax": "instance of Base { k = ; };",
                        "emb_class": "class X%s { };" % tag,
@@ -497,6 +586,11 @@ class Renderer:
                 props = 'k = %d; s = "sp";' % self.nextkey()
                 self.write_sp("SPI%s.mof" % tag,
                               "class SPI%s : Base { };\n" % tag)
+            elif v == "class_wrongfile_searchpath":
+                cls = "SWI%s" % tag
+                props = "k = %d;" % self.nextkey()
+                self.write_sp("SWI%s.mof" % tag,
+                              "class SWIOther%s : Base { };\n" % tag)
             elif v == "class_cycle_searchpath":
                 cls = "SPC%s" % tag
                 props = "k = %d;" % self.nextkey()
@@ -541,6 +635,17 @@ class Renderer:
         name = self.rng.choice(["namespace", "Namespace", "NAMESPACE"])
         return self.pragma(name, param, v)
 
+    FILENAMES = {
+        "nul_name": ["a\\x0.mof", "a\\x00b.mof", "\\X0000.mof", "a.mof\\x0"],
+        "nul_in_dir": ["%DIR%/b\\x0000", "%DIR%/b\\x0.mof"],
+        "surrogate_name": ["a\\xD800.mof", "\\xdfff.mof", "a\\xDC00\\xD800.mof"],
+        "overlong_name": ["n" * 300 + ".mof", "n" * 5000 + ".mof"],
+        "overlong_path": ["/".join(["d" * 100] * 60) + "/x.mof"],
+        "below_file": ["%FILE%/x.mof", "%FILE%/"],
+        "dot_name": [".", "..", "./"],
+        "escaped_name": ['a\\"b.mof', "a\\tb.mof", "a\\nb.mof", "a\\\\b.mof"],
+    }
+
     def include(self, p, tag, here):
         v = p["v"]
         target = self.inc_path
@@ -559,6 +664,20 @@ class Renderer:
             target = os.path.join(os.path.dirname(here),
                                   "incé%s.mof" % tag)
         param = self.incref(target, here) if v != "empty_name" else ""
+        if v in self.FILENAMES:
+            # lexeme classes of the file name (FileNameKinds of the spec);
+            # the text is the body of the MOF string literal
+            hdir = os.path.dirname(here)
+            param = self.rng.choice(self.FILENAMES[v])
+            if "%DIR%" in param:
+                os.makedirs(os.path.join(hdir, "fd%s" % tag), exist_ok=True)
+                param = param.replace("%DIR%", "fd%s" % tag)
+            param = param.replace("%FILE%", os.path.basename(here))
+            if self.api != "file" or self.rng.random() < 0.3:
+                # string input resolves against the cwd; anchor half of the
+                # relative names at the directory of the including text
+                if not os.path.isabs(param) and self.rng.random() < 0.5:
+                    param = os.path.join(hdir, param)
         if p["a"] in (1, 2, 3) and v in ("self", "mutual", "inc2"):
             # PathSpell of the spec: a relative path with a redundant
             # component (relative to the including file; for string input the
